@@ -266,8 +266,9 @@ def step (h : HState) (line : String) : HState × String :=
   | ["hboot", principal, d, how] =>
     -- a start of the server: `--autocreate` (d = 0) or `--defaults` (d = 1); `how` = module for
     -- the xandikos/wsgi.py start-up, anything else for run_simple_server
-    let w' := if how == "module" then bootModule h.world (fieldS principal) true (d == "1")
-              else boot h.world (fieldS principal) (d == "1")
+    -- d: 1 = --defaults, 0 = --autocreate, n = neither
+    let w' := if how == "module" then bootModule h.world (fieldS principal) (d != "n") (d == "1")
+              else bootSimple h.world (fieldS principal) (d != "n") (d == "1")
     let newColls := w'.colls.keys.filter fun p => !h.abs.colls.contains p
     ({ h with world := w', abs := { h.abs with colls := h.abs.colls ++ newColls } }, "hboot | ok")
   | ["COLLS"] =>
